@@ -24,7 +24,9 @@ Lapse(ws, T, g, cp, Lv, Rd, Rv) ==
     Mul(Div(g, cp), Div(Add(R(1), Div(Mul(Lv, ws), Mul(Rd, T))),
                         Add(R(1), Div(Mul(Mul(Lv, Lv), ws), Mul(Mul(cp, Rv), Mul(T, T))))))
 
-Grid == {R(0), Frac(1, 1000000), Frac(1, 50), Frac(1, 10), Frac(1, 3), Frac(1, 2), Frac(9, 10)}   \* 10^-6: trace-gas level
+CONSTANT Big                                            \* TRUE: the finer grid of the thorough tier
+Grid == {R(0), Frac(1, 1000000), Frac(1, 50), Frac(1, 10), Frac(1, 3), Frac(1, 2), Frac(9, 10)}
+        \cup (IF Big THEN {Frac(1, 100000), Frac(1, 1000), Frac(1, 7), Frac(1, 4), Frac(2, 3), Frac(3, 4), Frac(99, 100), Frac(3, 1000)} ELSE {})   \* 10^-6: trace-gas level
 Ms == {Frac(18, 29), Frac(5, 8)}
 VARIABLES v, m
 Init == v \in Grid /\ m \in Ms
